@@ -107,7 +107,7 @@ def parsePool (tok : String) : Option PoolObs :=
     | _, _, _, _, _, _ => none
   | _ => none
 
-def strLt (a b : Str) : Bool := decide (String.ofList a < String.ofList b)
+def strLt (a b : Str) : Bool := Par.lexLt a b
 
 def sortedStrict : List Str → Bool
   | a :: b :: r => strLt a b && sortedStrict (b :: r)
